@@ -218,7 +218,7 @@ F_LINES = {
     "C09": {"P", "D", "G", "T"},
     "C10": {"P", "T", "R"},
     "C14": {"P", "T"},
-    "C15": {"S", "W", "P", "T"},
+    "C15": {"S", "W", "P", "T", "CRASH"},
     "C17": {"NODE"},
     "C18": {"NODE", "EDGE", "R"},
     "C19": {"G", "P", "T", "D", "R", "S", "W", "NODE", "EDGE", "CRASH", "EXHAUSTED"},
@@ -230,7 +230,7 @@ def _f_worker(args):
     pid, n, seed, corpus = args
     rng = random.Random(seed)
     cfgs = list(corpus) + [factory.gen_config(rng, with_fleet=True) if i % 3 else factory.gen_config_sc(rng) for i in range(n)]
-    if pid == "C20":
+    if pid in ("C20", "C15"):
         cfgs += [factory.gen_invalid(rng) for _ in range(max(4, n // 3))]
     out = dict(evals=0, tags=collections.Counter(), sigs=set(), dis=[], viol=[], samples=[], lines=0)
     for lo in range(0, len(cfgs), 100):
